@@ -184,7 +184,7 @@ func (ex *Explorer) newInterp(sol *Solver) *Interp {
 		globals: map[*ssa.Global]*Value{}, side: map[*Value]*Obj{}, symNode: map[*Value]*SymNode{},
 		stubTypes: map[string]types_Type{}, bytesMemo: map[string]*Value{}, extGlobals: map[string]Value{},
 		summaries: map[string]bool{}, roCells: map[*Value]bool{}, usedStubs: map[string]int{},
-		fmtAsserted: map[string]bool{}, filterMemo: map[string]Value{}, filterNode: map[int]*Value{},
+		fmtAsserted: map[string]bool{}, drained: map[*[]Value][]Value{}, filterMemo: map[string]Value{}, filterNode: map[int]*Value{},
 	}
 	in.env = in.newObj("env")
 	return in
@@ -342,15 +342,18 @@ func (in *Interp) runInits() {
 // here (after fixing the lengths to the values of a first model) instead of
 // during exploration, where bv2nat makes all three solvers time out.
 func (in *Interp) confirmModel(maxLen uint64) (map[string]interface{}, bool) {
-	var lens []InputVar
+	var lens, allLens []InputVar
 	for _, iv := range in.path.inputs {
 		if iv.Kind == "str" && iv.T.Declared() {
 			// only strings whose content the path actually constrained need the tie
 			in.tt.Ref(iv.L)
 			lens = append(lens, iv)
 		}
+		if iv.Kind == "str" && (iv.T.Declared() || iv.L.Declared()) {
+			allLens = append(allLens, iv)
+		}
 	}
-	if len(lens) == 0 {
+	if len(allLens) == 0 {
 		return in.extractModel()
 	}
 	in.flush()
@@ -360,12 +363,17 @@ func (in *Interp) confirmModel(maxLen uint64) (map[string]interface{}, bool) {
 			break
 		}
 		in.sol.Send("(push)")
-		for _, iv := range lens {
+		for _, iv := range allLens {
 			in.sol.Send(fmt.Sprintf("(assert (bvule %s %s))", in.tt.Ref(iv.L), in.tt.BVConst(bound, 64).lit()))
 		}
 		if in.sol.CheckSat() != Sat {
 			in.sol.Send("(pop)")
 			continue
+		}
+		if len(lens) == 0 {
+			m, ok := in.extractModel()
+			in.sol.Send("(pop)")
+			return m, ok
 		}
 		for attempt := 0; attempt < 3; attempt++ {
 			var exprs []string
